@@ -47,7 +47,7 @@ func newWorker(root string, id int) *worker {
 	return w
 }
 
-var ociShapes = gen.OCIShapes()
+var ociShapes = append(gen.OCIShapes(), gen.OddOCIShapes()...)
 
 // feed pushes one byte string through every reading entry point. Returns whether it loaded.
 func (w *worker) feed(data []byte, ext string, files bool) (loaded bool, inconsistency string) {
